@@ -68,8 +68,10 @@ def main(fn, outname):
     except (Reject, SyntaxError, OSError, KeyError, IndexError, AttributeError, ValueError) as e:
         # fail closed: remove the stale generated file so nothing can be proved against it
         path = os.path.join(outdir, outname)
-        if os.path.exists(path):
-            os.remove(path)
+        base = path[:-2]
+        for ext in (".v", ".vo", ".vos", ".vok", ".glob"):
+            if os.path.exists(base + ext):
+                os.remove(base + ext)
         print("REJECTED %s: %r" % (outname, e))
         sys.exit(1)
     emit(outdir, outname, text)
